@@ -73,11 +73,15 @@ def _make_policy(plan):
 def _hand_row(variant, n, rc):
     """Coordinates on a coarse dyadic grid (ties, duplicate points, collinear points)."""
     grid = [0.0, 0.25, 0.5, 0.75, 1.0]
-    mode = rc.choice(["grid", "line", "duplicates"])
+    mode = rc.choice(["grid", "line", "duplicates", "address"] + (["address"] * 5 if n >= 26 else []))
     k = n + 1 if variant == "pdp_rr" else n
     pts = []
     for _ in range(k):
-        if mode == "line":
+        if mode == "address":
+            # arbitrary (not grid) coordinates with several customers at one address: zero-length edges whose
+            # computed length is exactly 0 only if the distance is taken coordinate-wise
+            pts.append(list(rc.choice(pts)) if pts and rc.random() < 0.35 else [rc.random(), rc.random()])
+        elif mode == "line":
             pts.append([rc.choice(grid + [0.125, 0.375]), 0.5])
         elif mode == "duplicates" and pts and rc.random() < 0.35:
             pts.append(list(rc.choice(pts)))
@@ -166,6 +170,11 @@ class C09:
         else:
             n = rc.choice([4, 5, 6, 6, 7, 8, 8, 9, 10] + ([15, 20] if thorough else []))
             cfg = {"env": "tsp_kopt", "kw": {"k_max": int(variant[-1])}, "gen": {"num_loc": n}}
+        big = rc.random() < 0.08
+        if big:
+            # more than 25 nodes (torch kernels switch algorithm there) with several customers at one address
+            n = rc.choice([26, 30])
+            cfg["gen"]["num_loc"] = n
         cfg["gen"]["init_sol_type"] = rc.choice(["random", "greedy"])
         m = rc.randint(2, 3)
         _seed(st.torch_seed("env"))
@@ -174,7 +183,7 @@ class C09:
         rows = E.td_rows(env.generator(batch_size=[m]))
         ri = st.get("instance")
         for j in range(m):
-            if rc.random() < 0.3:
+            if rc.random() < (0.3 if not big else 0.8):
                 rows[j] = _hand_row(variant, n, ri)
         b = rc.choice([1, 1, 2, 2, 3, 4])
         b = max(b, int(os.environ.get("RLSIM_MIN_B", "1")))   # debugging aid, like RLSIM_ONLY
@@ -184,6 +193,8 @@ class C09:
             sel = [sel[0]] * b
             mirror = True
         total = rc.randint(20, 60) if not thorough else rc.randint(20, 200)
+        if big:
+            total = min(total, 25)
         sources = ["random", "policy", "to_solution"] + (["mask", "mask"] if variant in ("kopt2", "pdp_rr") else ["random"])
         segs = []
         left = total
